@@ -159,12 +159,49 @@ def gen_script(rnd, length, families, max_snaps):
     return {"ops": ops}
 
 
-def scripts(ctx, name, families, n, length, budget, invariants, properties, salt=0, timeout=1200, max_snaps=3):
-    """Generate n seeded scripts, let MetaDBScript follow them (checking the given invariants and
-    action properties in every state) and return the behaviours wrapped for the driver."""
+def real_constants_script(rnd):
+    """One long history of a single metric under the default constants of the metadata server
+    (budget 1000, step 3600 s, bonus 10): exhaust the budget, wait, refill, reset, reopen."""
+    ops, nk = [], [0]
+
+    def create(n, metric="m1"):
+        for _ in range(n):
+            nk[0] += 1
+            ops.append({"a": "Goc", "metric": metric, "key": "key%05d" % nk[0]})
+    create(1000)
+    create(2)                                   # refused
+    ops.append({"a": "Goc", "metric": "m1", "key": "key00007"})     # lookup still served
+    ops.append({"a": "Tick", "d": rnd.choice([1, 100, 1877])})      # still inside the hour
+    create(1)                                   # refused
+    ops.append({"a": "Tick", "d": 3600})
+    create(12)                                  # 10 accepted, 2 refused
+    ops.append({"a": "Snap"})
+    create(1)
+    ops.append({"a": "Tick", "d": 2 * 3600 + rnd.choice([0, 5, 3599])})
+    create(22)
+    ops.append({"a": "Reset", "metric": "m1", "limit": rnd.choice([3, 7])})
+    create(9)
+    ops.append({"a": "Del", "ids": [1000, 1001]})
+    ops.append({"a": "Goc", "metric": "m2", "key": "key01000"})     # deleted key comes back under a new id
+    ops.append({"a": "Reset", "metric": "m1", "limit": 20000})      # clamped to maxResetLimit
+    create(5)
+    ops.append({"a": "Reset", "metric": "m1", "limit": 0})
+    create(3)
+    return {"ops": ops}
+
+
+def scripts(ctx, name, families, n, length, budget, invariants, properties, salt=0, timeout=1200, max_snaps=3, fixed=None):
+    """Generate n seeded scripts (or take the given ones), let MetaDBScript follow them (checking the
+    given invariants and action properties in every state) and return the behaviours wrapped for
+    the driver."""
     rnd = random.Random(ctx.seed * 7919 + salt)
-    lines = "\n".join(json.dumps(gen_script(rnd, length, families, max_snaps), separators=(",", ":")) for _ in range(n)) + "\n"
-    text = variant(read_cfg("MetaDB_script.cfg"), budget_consts(*budget), invariants, properties, "SExport")
+    sc = fixed if fixed is not None else [gen_script(rnd, length, families, max_snaps) for _ in range(n)]
+    n = len(sc)
+    lines = "\n".join(json.dumps(x, separators=(",", ":")) for x in sc) + "\n"
+    c = budget_consts(*budget)
+    if fixed is not None:
+        c["WithPost"] = "= FALSE"       # long histories: replies only, no projected state per step
+    text = variant(read_cfg("MetaDB_script.cfg"), c, invariants, properties, "SExport")
     res = ctx.tlc("MetaDBScript", "gen.cfg", files={"gen.cfg": text, "scripts.ndjson": lines}, timeout=timeout,
                   name=name, constants={"budget": list(budget), "scripts": n, "length": length})
     ctx.require_model_ok(res, name)
@@ -222,6 +259,58 @@ def sample(ctx, items, n, salt=0):
     return out
 
 
+TRACE_PROPS = {
+    "C15": ("VersionsUnique NameUnique NamespaceExists JournalOnceAscending",
+            "TEditNeedsCurrentVersion TEditHitsItsEntity TVersionsIncrease TRaceOneWinner TNamespaceNeverRenamed"),
+    "C19": ("Bijection PositiveIds UsedComplete FloodBound",
+            "TMappingStable TGetOrCreateIdempotent TDeadIdsNeverReissued"),
+}
+
+
+def validate_traces(ctx, mode, res, items, stage):
+    """I->S: the recorded executions (requests, the code's replies, tables read back) must be
+    accepted by MetaDBTrace with the property invariants / action properties holding in every
+    step.  One TLC run per group of runs sharing the budget constants."""
+    inv, prop = TRACE_PROPS[mode]
+    accepted = 0
+    for key, path in sorted((res.get("consts", {}).get("groups") or {}).items()):
+        mb, step, bonus, glob = [int(x) for x in key.split("_")]
+        if mb >= 100:       # tables of a thousand rows: leave the quadratic invariants to the small instances
+            inv = " ".join(x for x in inv.split() if x not in ("Bijection", "UsedComplete", "JournalOnceAscending"))
+        text = variant(read_cfg("MetaDBTrace.cfg"), budget_consts(mb, step, bonus, glob, 0), inv, prop)
+        with open(path) as f:
+            lines = f.read().splitlines()
+        runs = sum(1 for x in lines if '"ev":"Begin"' in x)
+        tv = ctx.tlc("MetaDBTrace", "gen.cfg", workers=1, files={"gen.cfg": text, "trace.ndjson": path}, timeout=1800,
+                     name="%s trace %s" % (stage, key), expect_violation=True, keep_beh=False,
+                     constants={"budget": [mb, step, bonus, glob], "runs": runs, "lines": len(lines)})
+        if not tv.violated:
+            accepted += runs
+            continue
+        # locate the offending line: rejected traces print it, invariant / property violations
+        # show the line counter of the last state
+        m = re.findall(r"TRACE_REJECTED_AT_LINE\D+(\d+)", tv.out)
+        if m:
+            ln = int(m[-1])
+        else:
+            ls = [int(x) for x in re.findall(r"(?m)^/\\ l = (\d+)", tv.out)]
+            ln = (max(ls) - 1) if ls else 1
+        ln = max(1, min(ln, len(lines)))
+        ev = json.loads(lines[ln - 1])
+        b = ev.get("b")
+        run = [json.loads(x) for x in lines if json.loads(x).get("b") == b] if b is not None else [ev]
+        if tv.violated == "postcondition":
+            sig = "trace-rejected: %s read-back differs from the accepted requests" % ev.get("ev")
+        else:
+            sig = tv.violated
+        keep = ctx.save("%s_rejected_%s.json" % (stage, key), {
+            "violated": tv.violated, "line": ln, "event": ev, "run": run,
+            "behaviour": items[b] if b is not None and b < len(items) else None, "tlc": tv.cex[-6000:]})
+        ctx.violation(sig, "%s: execution of the real DBV2 violates %s at %s (budget constants %s)" % (
+            stage, tv.violated, json.dumps(ev)[:500], key), keep)
+    return accepted
+
+
 def drive(ctx, mode, items, stage, timeout=2400):
     """Replay the behaviours on the real DBV2.  Returns the driver result; mismatches become
     violations of the calling property (signature = mismatch class)."""
@@ -265,3 +354,14 @@ def drive(ctx, mode, items, stage, timeout=2400):
         ctx.ev.sample(s)
     ctx.log("%s: %d/%d behaviours ok, %d mismatching, %d steps" % (stage, ok, len(items), nmm, res.get("steps", 0)))
     return res
+
+
+def replay_witness(ctx, mode, path):
+    """tools/check <ID> --replay <witness>: run the stored behaviour again on the real DBV2."""
+    with open(path) as f:
+        w = json.load(f)
+    beh = w.get("behaviour") or w.get("beh")
+    if not beh:
+        raise Infra("witness %s carries no behaviour" % path)
+    ctx.log("replaying the stored behaviour (%d steps, source %s)" % (len(beh.get("steps", [])), beh.get("src")))
+    drive(ctx, mode, [beh], "replayed")
